@@ -333,14 +333,15 @@ def one : Ex := .lit (.int 1)
 /-- `i - lo + 1` -/
 def shiftTo1 (lo e : Ex) : Ex := .bin .add (.bin .sub e lo) one
 
-/-- new subscripts of one reference; `none` = the real code raises (open range on a shifted dimension) -/
+/-- new subscripts of one reference: a section keeps its own stride and its open ends (since the two `fix:` commits; before,
+the stride of the DECLARED dimension — none — was used and an open end raised `TypeError`); the `Option` is kept for the
+callers, the function no longer fails -/
 def normDims : List (Ex × Ex) → List Dim → Option (List Dim)
   | (lo, _) :: bs, d :: ds =>
       if isLit1 lo then (normDims bs ds).map (d :: ·) else
       match d with
       | .at e => (normDims bs ds).map (.at (shiftTo1 lo e) :: ·)
-      | .rng (some a) (some b) _ => (normDims bs ds).map (.rng (some (shiftTo1 lo a)) (some (shiftTo1 lo b)) none :: ·)
-      | .rng _ _ _ => none
+      | .rng a b c => (normDims bs ds).map (.rng (a.map (shiftTo1 lo)) (b.map (shiftTo1 lo)) c :: ·)
   | _, _ => some []
 
 def dimsOfSubs (subs : List Ex) : List Dim := subs.map .at
